@@ -7,11 +7,11 @@
 (* digest, digest kind, tail, the first 7 hex digits of the SHA-256 of its *)
 (* text (tailof) and the bytes of its text.                                *)
 (***************************************************************************)
-EXTENDS Naturals, Sequences
+EXTENDS Naturals, Sequences, TLC
 
-CONSTANT RevT
+CONSTANTS RevT,    \* the side table (a sequence of records)
+          RevIx    \* identifier text -> position in RevT (defined in the root module so that TLC evaluates it once)
 
-RevIx  == [t \in {RevT[i].rev : i \in DOMAIN RevT} |-> CHOOSE i \in DOMAIN RevT : RevT[i].rev = t]
 RevRec(r)  == RevT[RevIx[r]]
 
 RECURSIVE LexLess(_, _, _)
